@@ -737,9 +737,11 @@ impl Gen {
 
     /// initial registrations: a host/proxy layout, possibly skewed / odd
     pub fn layout(&mut self) -> Vec<Op> {
-        let nh = self.rng.gen_range(2..=5);
+        // "scalein": enough proxies for 12-16 node clusters, so that scale-in removes two or more chunks
+        let scalein = self.profile == "scalein";
+        let nh = if scalein { self.rng.gen_range(3..=5) } else { self.rng.gen_range(2..=5) };
         self.hosts = (1..=nh).collect();
-        let shape = self.rng.gen_range(0..4);
+        let shape = if scalein { 3 } else { self.rng.gen_range(0..4) };
         let mut ops = vec![];
         let mut counts = vec![];
         for h in 0..nh {
@@ -830,6 +832,7 @@ impl Gen {
         }
         let fail_heavy = self.profile == "failover";
         let quorum_heavy = self.profile == "quorum";
+        let scalein = self.profile == "scalein";
         // weights
         let mut w: Vec<(&str, u32)> = vec![];
         if ncl == 0 { w.push(("add_cluster", 40)); } else if ncl < 2 && !self.ordered { w.push(("add_cluster", 3)); }
@@ -838,12 +841,13 @@ impl Gen {
                 w.push(("commit", 40));
                 w.push(("commit_bad", 4));
                 w.push(("refused", 6));
+                if scalein { w.push(("delete_free", 45)); }
                 w.push(("failover", if fail_heavy { 25 } else { 10 }));
             } else {
                 w.push(("commit_bad", 2));
                 w.push(("add_nodes", 12));
                 if has_empty { w.push(("migrate", 25)); w.push(("delete_free", 6)); } else { w.push(("migrate", 2)); w.push(("delete_free", 2)); }
-                if nchunks > 1 && !has_empty { w.push(("scale_down", 12)); } else { w.push(("scale_down", 2)); }
+                if nchunks > 1 && !has_empty { w.push(("scale_down", if scalein { 60 } else { 12 })); } else { w.push(("scale_down", 2)); }
                 w.push(("auto_scale", 5));
                 w.push(("failover", if fail_heavy { 20 } else { 7 }));
                 w.push(("config", 4));
@@ -871,7 +875,7 @@ impl Gen {
         match kind {
             "add_cluster" => {
                 let name = if clusters.map(|m| m.contains_key("c1")).unwrap_or(false) { "c2" } else { "c1" };
-                let n = *[4usize, 4, 8, 8, 12, 0, 6, 16].choose(&mut self.rng).unwrap();
+                let n = if self.profile == "scalein" { *[12usize, 16, 12, 8].choose(&mut self.rng).unwrap() } else { *[4usize, 4, 8, 8, 12, 0, 6, 16].choose(&mut self.rng).unwrap() };
                 Op::AddCluster { name: name.to_string(), n }
             }
             "commit" => {
